@@ -1418,9 +1418,44 @@ func (c *c05Ctx) registeredInterfaceType(l *c05Law) {
 	})
 }
 
+// registeredReflectValue: a reflect.Value handed over as an operand stands for the value it describes, also when it
+// was reached through an unexported field (CanInterface() false): of a registered safe type, it is not enveloped.
+type c05RegFields struct {
+	Pub  c05RegInt
+	priv c05RegInt
+	str  c05RegStr
+}
+
+func (c *c05Ctx) registeredReflectValue(l *c05Law) {
+	c05WithRegistered([]reflect.Type{reflect.TypeOf(c05RegInt(0)), reflect.TypeOf(c05RegStr(""))}, func() {
+		h := reflect.ValueOf(c05RegFields{Pub: 7, priv: -8, str: "s t"})
+		for _, tc := range []struct {
+			txt  string
+			v    reflect.Value
+			dir  string
+			want string
+		}{
+			{"reflect.ValueOf(c05RegFields{Pub: 7, priv: -8, str: \"s t\"}).Field(0)", h.Field(0), "%v", "7"},
+			{"reflect.ValueOf(c05RegFields{Pub: 7, priv: -8, str: \"s t\"}).Field(1) /* unexported */", h.Field(1), "%v", "-8"},
+			{"reflect.ValueOf(c05RegFields{Pub: 7, priv: -8, str: \"s t\"}).Field(1) /* unexported */", h.Field(1), "%5d", "   -8"},
+			{"reflect.ValueOf(c05RegFields{Pub: 7, priv: -8, str: \"s t\"}).Field(2) /* unexported */", h.Field(2), "%v", "s t"},
+			{"reflect.ValueOf(c05RegFields{Pub: 7, priv: -8, str: \"s t\"}).Field(2) /* unexported */", h.Field(2), "%q", "\"s t\""},
+		} {
+			call := "with RegisterSafeType{c05RegInt, c05RegStr}: " + fmt.Sprintf("Sprintf(%q, %s)", tc.dir, tc.txt)
+			out := string(Sprintf(tc.dir, tc.v))
+			l.cases++
+			l.nontrivial++
+			if out != tc.want {
+				c.fail(call, out, "a reflect.Value operand of a registered safe type is rendered without an envelope: want "+strconv.Quote(tc.want))
+			}
+		}
+	})
+}
+
 func (c *c05Ctx) registry(l *c05Law, tier int) {
 	c.registeredWithMethod(l)
 	c.registeredInterfaceType(l)
+	c.registeredReflectValue(l)
 	types := []reflect.Type{reflect.TypeOf(c05RegInt(0)), reflect.TypeOf(c05RegStr("")), reflect.TypeOf(c05RegStruct{}), reflect.TypeOf(int32(0))}
 	names := []string{"c05RegInt", "c05RegStr", "c05RegStruct", "int32"}
 	before := len(c05SafeTypeRegistry)
